@@ -5,6 +5,7 @@ import OrsoVerif.Lemmas.DictSchema
 import OrsoVerif.Lemmas.DictJson
 import OrsoVerif.Model.DictIter
 import OrsoVerif.Model.DictClass
+import OrsoVerif.Model.DictKinds
 /-!
 # C02 — Dictionary records map onto rows by field name
 
@@ -1021,5 +1022,57 @@ example :
       [.append [("a", 1), ("b", 2)], .edit (fun _ => ["b", "a"]), .append [("a", 3), ("b", 4)]]
     st.rows.map (fun r => (DictClass.fieldsOf st r, r.built, r.cells))
       = [(["b", "a"], ["a", "b"], [1, 2]), (["b", "a"], ["b", "a"], [4, 3])] := by decide
+
+/-- Clause "building a row from a dictionary (directly … or by appending a dictionary)", **for every kind of object the
+record is held in**: an exact `dict`, an instance of a subclass of `dict`, a mutable mapping that is not a dict (UserDict,
+ChainMap, a `MutableMapping` class), a read-only mapping (MappingProxyType, a `Mapping` class).  With the statements of the
+working tree (`newConvertsMapping` in `Row.__new__`; `appendCopiesKind`, `appendCopyOnNames`, `appendCopyOnBound` in
+`DataFrame.append`) a class made by `create_class` lays every one of them out by field name, and `append` stores that row
+on a names-only frame (built from dictionaries, `rows=`/`schema=[names]`, derived) for every kind, on a schema-bound frame
+for every kind its validation takes (mutable mappings; validation itself is C03's). -/
+theorem every_record_kind_by_field_name (null : α) (ofKey : String → α) (fields : List String) (rows : List (List α))
+    (d : List (String × α)) (k : DictKinds.Kind) :
+    DictKinds.rowNewKind null ofKey (createClass fields tuplesOnlyDefault) k d = some (extract null fields d)
+    ∧ DictKinds.appendKind null ofKey .names (createClass fields frameDictsTuplesOnly) rows k d = some (append null fields rows d)
+    ∧ DictKinds.appendKind null ofKey .names (createClass fields frameRowsTuplesOnly) rows k d = some (append null fields rows d)
+    ∧ (k.isMutable = true →
+        DictKinds.appendKind null ofKey .bound (createClass fields frameRowsTuplesOnly) rows k d = some (append null fields rows d)) := by
+  have hs := (rowNew_subclass null ofKey fields rows d).1
+  rw [show tuplesOnlyDefault = false from rfl] at hs
+  have hd : rowNew null ofKey (createClass fields false) (.dict d) = some (extract null fields d) := rowNew_false null ofKey fields d
+  have hh : (createClass fields false).handlesDict = true := by simp [createClass, classHandlesDict]
+  rw [show tuplesOnlyDefault = false from rfl, show frameRowsTuplesOnly = false from rfl, show frameDictsTuplesOnly = false from rfl]
+  set_option linter.unusedSimpArgs false in
+  cases k <;>
+    simp [DictKinds.rowNewKind, DictKinds.appendKind, DictKinds.appendKindWith, DictKinds.rowNewKindWith, DictKinds.newConv,
+      DictKinds.appendCopies, DictKinds.appendCopyHere, DictKinds.Kind.isDict, DictKinds.Kind.isExact, DictKinds.Kind.isMutable,
+      newConvertsMapping, appendCopiesKind, appendCopyOnNames, appendCopyOnBound, appendBuildsRowWithFactory, appendStoresNewRow,
+      hs, hd, hh, append]
+
+/-- The failure mode (why one of the two statements is needed): a mapping that is not a dict and reaches the row factory as
+it is — no conversion in `Row.__new__`, no copy in `append` on this kind of frame — is iterated like a tuple: the row stored
+is the mapping's KEYS, as wide as the mapping, whatever the field list. -/
+theorem unconverted_mapping_gives_keys (null : α) (ofKey : String → α) (cls : RowClass) (rows : List (List α))
+    (d : List (String × α)) (fk : DictKinds.FrameKind) (copies : DictKinds.Kind → Bool)
+    (hb : appendBuildsRowWithFactory = true ∧ appendStoresNewRow = true) :
+    DictKinds.appendKindWith copies (fun f => f != fk) (fun _ => false) null ofKey fk cls rows .mutableMapping d
+      = some (rows ++ [d.map fun p => ofKey p.1]) := by
+  simp [DictKinds.appendKindWith, DictKinds.rowNewKindWith, hb.1, hb.2]
+
+example : DictKinds.appendKindWith (fun k => k.isMutable && !k.isDict) (fun f => f == .bound) (fun _ => false)
+    (0 : Nat) String.length .names (createClass ["id", "name"] false) [] .mutableMapping [("name", 7), ("id", 5)]
+    = some [[4, 2]] := by decide
+
+/-- Clause "exactly one row per dictionary … puts each field's value at that field's position", for a lazy producer that
+goes on using the record objects it has handed over (one buffer refilled for every record; records emptied once the next
+is asked for): the constructor of the working tree builds the rows while it walks the iterable (`frameSourceStreams`), so
+every record is read as it was WHEN it was handed over, and the frame is the specification frame of those records. -/
+theorem records_read_when_handed_over {δ : Type} (steps : List (Nat × δ)) :
+    DictKinds.readRecords frameSourceStreams steps = steps.map (·.2) := by
+  simp [DictKinds.readRecords, frameSourceStreams]
+
+/-- the failure mode: the iterable run to its end first — two records handed over in one refilled buffer are both read as
+the last one -/
+example : DictKinds.readRecords false [(0, "ada"), (0, "bob"), (1, "cy"), (0, "dee")] = ["dee", "dee", "cy", "dee"] := by decide
 
 end C02
